@@ -40,7 +40,7 @@ def source_stamp():
 
 
 def regenerate():
-    from harness import facts_cli, facts_jobs, facts_manifest  # noqa: F401  (register their generators)
+    from harness import facts_cli, facts_jobs, facts_manifest, facts_rtl  # noqa: F401  (register their generators)
     stamp_file = os.path.join(common.COQ, "gen", ".stamp")
     stamp = source_stamp()
     gens = list(dict.fromkeys(GENERATORS))
